@@ -7,8 +7,15 @@ from .types import ExpressionToken
 
 
 def wrap_impure(expr, invoke):
+    # The result is cached so that the diagnostics of an impure operator are
+    # not repeated, but only for the operand values it was computed from: the
+    # same token may be evaluated again with other operands (e.g. '.' in the
+    # next iteration of '.repeat').
     def fn(*args):
+        if expr.value is not None and len(expr.value_args) == len(args) and all(a is b or (isinstance(a, int) and isinstance(b, int) and a == b) for a, b in zip(expr.value_args, args)):
+            return expr.value
         expr.value = invoke(*args)
+        expr.value_args = args
         return expr.value
     return fn
 
@@ -28,9 +35,6 @@ class InfixOperator(ExpressionToken):
         self.value = None
 
     def resolve(self, state):
-        if self.value is not None:
-            return self.value
-
         lhs = self.lhs.resolve(state)
         rhs = self.rhs.resolve(state)
 
@@ -68,9 +72,6 @@ class UnaryOperator(ExpressionToken):
         self.value = None
 
     def resolve(self, state):
-        if self.value is not None:
-            return self.value
-
         operand = self.operand.resolve(state)
 
         invoke = self.fn if self.token else type(self).fn
